@@ -219,7 +219,10 @@ pub fn ev_fixed(regs: &mut Regs, out: &mut Out, o: usize, depth: u8, flag: bool,
   out.emit(ev);
   regs.set(o, bm);
 }
+/// results above this size are not traced (TLC validates ~100 cells / ms; the bound keeps every event cheap)
+pub const MAX_QUERY_CELLS: usize = 250;
 pub fn ev_query(regs: &mut Regs, out: &mut Out, o: usize, what: &str, res: Option<BMOC>) {
+  if res.as_ref().map_or(false, |b| b.entries.len() > MAX_QUERY_CELLS) { return; }
   out.emit(result_event(json!({"ev": "query", "out": o, "what": what}), &res));
   regs.set(o, res);
 }
@@ -242,7 +245,9 @@ fn random_ops(rng: &mut Rng, regs: &mut Regs, out: &mut Out, nops: usize, laws: 
     let op = *rng.pick(&["not", "and", "or", "xor", "and", "or", "xor"]);
     ev_op(regs, out, op, a, b, o);
     if regs.r[o].is_none() { return; } // a panic: the rest of the block would run on different values than the spec's
-    if views && rng.below(3) == 0 { ev_view(regs, out, o); }
+    let ncells = regs.r[o].as_ref().unwrap().entries.len();
+    if ncells > 600 { return; } // keep every event cheap for TLC (complements of deep MOCs grow quickly)
+    if views && ncells <= MAX_QUERY_CELLS && rng.below(3) == 0 { ev_view(regs, out, o); }
     if laws && rng.below(4) == 0 {
       let used = regs.used();
       ev_law(regs, out, *rng.pick(&["notnot", "demorgan", "xor_self", "or_not"]), *rng.pick(&used), *rng.pick(&used));
